@@ -57,6 +57,16 @@ def supervise(exe, bases, muts, out, total, stall=25):
 def run_untrusted(v, wd, exe, seed, tier, focus):
     bp = os.path.join(wd, "bases.ndjson")
     bases = base_programs(seed)
+    # files of the independent encoder: layouts the crate's own writer never produces (empty data packets, index and
+    # ignored packets, streams cut inside values) next to zero-width records
+    import c03, materialize
+    enc = {c["name"]: c for c in c03.encoder_cases(wd, False)}
+    for nm in ("s1-25", "s3-43", "s2-40", "w1-43"):
+        if nm in enc:
+            img, _scene = materialize.build_file([enc[nm]], v=0, guid="enc-" + nm)
+            fp = os.path.join(wd, f"encbase_{nm}.e57")
+            open(fp, "wb").write(img)
+            bases.append({"name": "enc_" + nm, "file": fp})
     with open(bp, "w") as f:
         for b in bases:
             f.write(json.dumps(b) + "\n")
